@@ -34,7 +34,7 @@ COMPONENTS = {"real": ["smpl_extract.actions.determine_image_type, alcohol/mdf, 
               "stub": ["SimFile for raw/2352/MDX; virtual FS for the two cue arms", "stdout captured", "sandboxed output"]}
 ASSUMPTIONS = ["the 2352 encoding pads the last sector's user data; MDX 'eof' = header + data length",
                "purely differential - the raw arm itself is validated by C01/C02"]
-EXPECTED_PROBES = ["akai", "roland", "size_not_multiple_of_2048", "mdf_partial_sector_reads", "audio_cue_is_cdda", "ls_leaf_compared", "trimmed_dump", "partial_raw_sector_at_end", "cue_header_lines", "mixed_mode_cue", "bin_in_subdirectory", "keywords_not_upper_case"]
+EXPECTED_PROBES = ["akai", "roland", "size_not_multiple_of_2048", "mdf_partial_sector_reads", "audio_cue_is_cdda", "ls_leaf_compared", "trimmed_dump", "partial_raw_sector_at_end", "cue_header_lines", "mixed_mode_cue", "bin_in_subdirectory", "keywords_not_upper_case", "blank_lines_between_entries"]
 SHRINK = {"max_attempts": 60, "max_seconds": 120.0, "simple_values": {"policy": ["contiguous"]}}
 
 
@@ -51,6 +51,9 @@ def gen(rng: random.Random, tier: str, index: int) -> dict:
         style["bin_name"] = rng.choice(["D.BIN", "bins/d.img", "rips/cd 1/d.bin", "my disc (1).bin"])
     if rng.random() < 0.25:
         style["kw_case"] = rng.choice(["lower", "title"])
+    if rng.random() < 0.3:
+        # editors leave lines that hold only blanks or a tab between the entries
+        style["inner_blank"] = [rng.choice(["   ", "\t", " \t ", ""]), rng.choice(["after_file", "after_track", "both", "everywhere"])]
     sc["cue_style"] = style
     return sc
 
@@ -105,6 +108,16 @@ def _run_arm(arm: str, img: bytes, paths, res: RunResult, raw_tail: int = 0, cue
         text += K.data_cue(bin_name, mode, style.get("kw_case"))
         for i in range(style.get("audio_tracks", 0)):
             text += "  TRACK %02d AUDIO\n    INDEX 01 %02d:00:00\n" % (i + 2, 50 + i)
+        if style.get("inner_blank"):
+            blank, where = style["inner_blank"]
+            out = []
+            for ln in text.split("\n")[:-1]:
+                out.append(ln)
+                kw = ln.strip().upper()
+                if where == "everywhere" or (kw.startswith("FILE") and where in ("after_file", "both")) \
+                        or (kw.startswith("TRACK") and where in ("after_track", "both")):
+                    out.append(blank)
+            text = "\n".join(out) + "\n"
         return text.encode()
 
     bin_name = style.get("bin_name", "d.bin")
@@ -194,6 +207,8 @@ def run(sc: dict) -> RunResult:
         res.probes["cue_header_lines"] += 1
     if "/" in (sc.get("cue_style") or {}).get("bin_name", ""):
         res.probes["bin_in_subdirectory"] += 1
+    if (sc.get("cue_style") or {}).get("inner_blank"):
+        res.probes["blank_lines_between_entries"] += 1
     if (sc.get("cue_style") or {}).get("kw_case"):
         res.probes["keywords_not_upper_case"] += 1
     if (sc.get("cue_style") or {}).get("audio_tracks"):
